@@ -17,7 +17,8 @@ RULE = ('cases = well-formed chart instrumented with data-only probes (contracts
         'boundaries b (quick: <=5 sampled; thorough: every boundary) and both pickle round-trip '
         'and copy.deepcopy, the restored interpreter fed the remaining ops must produce exactly '
         'the reference suffix (steps, contexts, condition evaluations incl. __old__, history '
-        'restorations, delayed events becoming due) and so must the original continued after the '
+        'restorations, delayed events becoming due; in half of the cases the external events carry '
+        'a list that the consuming transitions read and extend in place) and so must the original continued after the '
         'snapshot. Non-trivial = snapshot taken while a state with an __old__-reading '
         'postcondition/invariant is active, a history memory is set, or a delayed event is '
         'pending; distinct = sha1(chart, history, b, method).')
@@ -41,8 +42,10 @@ def strategy(tier):
         bs = None if big else draw(st.lists(st.integers(1, nsteps - 1), min_size=2, max_size=5,
                                             unique=True))
         # counter 'n': fragments mutate a nested list in place; conditions read it through __old__
+        # payload: external events carry a list that the consuming transitions read and extend
         return {'spec': spec, 'ops': ops, 'bs': bs,
-                'counter': draw(st.sampled_from(['v', 'n']))}
+                'counter': draw(st.sampled_from(['v', 'n'])),
+                'payload': draw(st.booleans())}
     return cases()
 
 
@@ -50,9 +53,14 @@ def clean(ctx):
     return {k: repr(ctx[k]) for k in sorted(ctx) if k not in ('gv',)}
 
 
-def apply_op(d, op, sig):
+BAG = ("log.append(('bag', len(getattr(event, 'bag', []))))\n"
+       "getattr(event, 'bag', []).append(1)")
+
+
+def apply_op(d, op, sig, payload=False):
     if op[0] == 'q':
-        d.queue(op[1], delay=op[2], mode=op[3], uid=op[4])
+        d.queue(op[1], delay=op[2], mode=op[3], uid=op[4],
+                params={'bag': [0]} if payload else None)
     elif op[0] == 'adv':
         d.advance(op[1])
     else:
@@ -89,6 +97,11 @@ def oracle(case):
     spec = probes.instrument(case['spec'], contracts=True, counter=case.get('counter', 'v'))
     ops = case['ops']
     viol, labels, keys = [], {}, []
+    payload = bool(case.get('payload'))
+    if payload:
+        for t in spec['transitions']:
+            if t.get('event'):
+                t['action'] = (t.get('action') or 'pass') + '\n' + BAG
     d0 = fresh(spec)
     ref = []
     steps_before = []     # number of step signatures produced before op index b
@@ -100,7 +113,7 @@ def oracle(case):
             (set(d0.interp.configuration) & old_states)
             or d0.interp._memory
             or any(t > d0.interp.time for t, _ in d0.interp._internal_queue + d0.interp._external_queue)))
-        apply_op(d0, op, ref)
+        apply_op(d0, op, ref, payload)
     labels['runs'] = 1
     h = sha([case['spec'], ops])
     bs = case['bs'] if case.get('bs') is not None else list(range(1, len(ops)))
@@ -111,7 +124,7 @@ def oracle(case):
             d = fresh(spec)
             sig = []
             for op in ops[:b]:
-                apply_op(d, op, sig)
+                apply_op(d, op, sig, payload)
             if sig != ref[:steps_before[b]]:
                 viol.append({'prop': PROP, 'kind': 'not-repeatable', 'step': b, 'detail': {}})
                 break
@@ -130,9 +143,9 @@ def oracle(case):
             want = ref[steps_before[b]:]
             so, sc_ = [], []
             for op in ops[b:]:
-                apply_op(dc, op, sc_)
+                apply_op(dc, op, sc_, payload)
             for op in ops[b:]:
-                apply_op(d, op, so)
+                apply_op(d, op, so, payload)
             labels['snapshots (%s)' % method] = labels.get('snapshots (%s)' % method, 0) + 1
             dd = first_diff(want, sc_)
             if dd:
